@@ -164,10 +164,10 @@ def conforming_values(v, dtype, count, concrete_text=False):
     return out
 
 
-def sym_scalar(v, key, target):
+def sym_scalar(v, key, target, kinds=None):
     """A tagged union of everything the API accepts as one value."""
     t = None if target is None else str(target)
-    kinds = ["int", "bool", "float", "none", "empty", "emptylist", "emptydict", "str", "native"]
+    kinds = kinds or ["int", "bool", "float", "none", "empty", "emptylist", "emptydict", "str", "native"]
     kind = v.pick(key + ".kind", kinds)
     if kind == "int":
         return sym_int(v, key + ".int")
@@ -192,9 +192,9 @@ def sym_scalar(v, key, target):
     return v.str(key + ".str", maxlen, ALPHABET)
 
 
-def sym_scalar_small(v, key, target):
+def sym_scalar_small(v, key, target, kinds=None):
     """Second member of a two-element argument: the kinds that can disagree with the first."""
-    kind = v.pick(key + ".kind", ["int", "none", "str", "native", "emptydict"])
+    kind = v.pick(key + ".kind", kinds or ["int", "none", "str", "native", "emptydict"])
     if kind == "int":
         return sym_int(v, key + ".int")
     if kind == "none":
@@ -213,9 +213,12 @@ def sym_scalar_small(v, key, target):
     return v.str(key + ".str", 1, ALPHABET)
 
 
-def sym_argument(v, key, target):
-    """One value, or a list of two."""
+def sym_argument(v, key, target, small=False):
+    """One value, or a list of two.  small (quick tier of extend): the two-element case draws from fewer kinds."""
     if v.bool(key + ".list"):
+        if small:
+            return [sym_scalar(v, key + ".0", target, ["int", "none", "empty", "str", "native", "emptydict"]),
+                    sym_scalar_small(v, key + ".1", target, ["int", "str", "none"])]
         return [sym_scalar(v, key + ".0", target), sym_scalar_small(v, key + ".1", target)]
     return sym_scalar(v, key, target)
 
@@ -250,10 +253,10 @@ def run_op(v, opcode, prop, pre_values):
         prop.append(sym_scalar(v, "arg", target), strict=strict)
         return prop
     if opcode == "extend":
-        prop.extend(sym_argument(v, "arg", target), strict=strict)
+        prop.extend(sym_argument(v, "arg", target, small=(v.tier == "quick")), strict=strict)
         return prop
     if opcode == "insert":
-        idx = v.pick("idx", [0, 5, -1] if v.tier == "quick" else [0, 1, 5, -1])
+        idx = v.pick("idx", [0, 5] if v.tier == "quick" else [0, 1, 5, -1])
         prop.insert(idx, sym_scalar(v, "arg", target), strict=strict)
         return prop
     if opcode == "setitem":
